@@ -404,7 +404,7 @@ where
                 *old(boundary_count) + hits_upto(self.0@, pt(*coord), self.0@.len() as int) <= usize::MAX,
                 *is_inside == (*old(is_inside) || some_interior_upto(self.0@, pt(*coord), it.index@)),
                 *boundary_count == *old(boundary_count) + hits_upto(self.0@, pt(*coord), it.index@),
-//@before 1 `polygon.calculate_coordinate_position(coord, is_inside, boundary_count);`
+//@loopentry 1
             proof {
                 let k = it.index@;
                 assert(*polygon == self.0@[k]);
@@ -430,7 +430,7 @@ where
                 *old(boundary_count) + hits_upto(self.0@, pt(*coord), self.0@.len() as int) <= usize::MAX,
                 *is_inside == (*old(is_inside) || some_interior_upto(self.0@, pt(*coord), it.index@)),
                 *boundary_count == *old(boundary_count) + hits_upto(self.0@, pt(*coord), it.index@),
-//@before 1 `line_string.calculate_coordinate_position(coord, is_inside, boundary_count);`
+//@loopentry 1
             proof {
                 let k = it.index@;
                 assert(*line_string == self.0@[k]);
